@@ -945,6 +945,38 @@ class EasyId3GlobCaseKind(EasyId3Kind):
     name = "EasyID3:glob-case"; family = ("performer", "replaygain")
 
 
+class EasyRoleTypedPolicy(EasyPolicy):
+    """the normalisation EasyID3 really applies to performer:* keys: the fixed part is case-insensitive, the role is
+    kept as typed (the deviation from the documented case-insensitivity is the open finding easyid3-glob-case, observed
+    through the kind EasyID3:glob-case; this policy lets every other mapping law be checked for typed roles)"""
+    def norm(self, k, op):
+        if k[0] != "s": raise Exp("TypeError", "KeyError")
+        low = k[1].lower()
+        if self.handler(low, op) is None: raise Exp("KeyError")
+        if low.startswith("performer:"):
+            return S("performer:" + k[1][len("performer:"):])
+        return S(low)
+
+    def handler(self, key, op):
+        return EasyPolicy.handler(self, key.lower(), op)
+
+
+class EasyId3RoleTypedKind(EasyId3Kind):
+    """performer:<Role> keys with roles in mixed case, under the normalisation the code really applies"""
+    name = "EasyID3:performer-roles"; family = ("performer",)
+
+    @property
+    def policy(self): return EasyRoleTypedPolicy(self.easy_cls)
+
+    def keys_universe(self, rng):
+        roles = ["Guitar", "guitar", "GUITAR", "x Y", "Album", ""]
+        out = []
+        for r in rng.sample(roles, 4):
+            out.append(rng.choice(["performer:", "PERFORMER:", "Performer:"]) + r)
+        out += ["title", "TITLE", "artist", "nosuchkey", "performer"]
+        return [S(k) for k in out]
+
+
 class EasyMp4Kind(EasyKind):
     name = "EasyMP4Tags"; native_attr = "_EasyMP4Tags__mp4"
 
@@ -1066,7 +1098,7 @@ class Mp3NoTagsKind(Mp3Kind):
 
 
 KINDS = [ProxyKind(), ApeKind(), VcKind(), Id3Kind(), Id3NonStrKind(), Mp4Kind(), AsfKind(), EasyId3Kind(), EasyId3PerformerKind(),
-         EasyId3GainKind(), EasyId3GlobCaseKind(), EasyMp4Kind(),
+         EasyId3GainKind(), EasyId3GlobCaseKind(), EasyId3RoleTypedKind(), EasyMp4Kind(),
          FlacKind(), FlacNoTagsKind(), Mp3Kind(), Mp3NoTagsKind()]
 KIND_BY_NAME = {k.name: k for k in KINDS}
 
